@@ -1,8 +1,10 @@
 /-
 Helper lemmas for C24 (Props/C24.lean): list facts for the routed store list, the `ListBuckets`
-de-duplication, and the `putRow` lemma behind `cross_copy_eq_same_copy`.
+de-duplication, the `putRow` lemma behind `cross_copy_eq_same_copy`, and the placement invariant
+(which uses the bucket-name frame lemmas of Lemmas/Replication.lean).
 -/
 import Pithos.Model.Routing
+import Pithos.Lemmas.Replication
 
 namespace Pithos.Routing
 open Pithos.S3 Pithos.S3Ext
@@ -293,5 +295,114 @@ theorem mem_listBuckets (fx : Fixes) (c : Cfg) (ss : Stores) (n : String) :
   split
   · rw [mem_dedup]; simp [List.mem_flatMap]
   · simp [List.mem_flatMap]
+
+-- ---------------------------------------------------------------- placement
+
+/-- Every bucket lives in the storage its name is routed to, and a storage holds a name once. -/
+def Placed (c : Cfg) (ss : Stores) : Prop :=
+  ∀ i s, ss[i]? = some s → (bucketNames s).Nodup ∧ ∀ n ∈ bucketNames s, storageOf c n = i
+
+theorem bucketNames_eq (s : State) : bucketNames s = Replication.names s := rfl
+
+/-- A storage that runs a call routed to it by bucket `b` keeps `Placed`. -/
+theorem placed_after {c : Cfg} {i : Nat} {s : State} (q : Quirks) (op : XOp)
+    (h : (bucketNames s).Nodup ∧ ∀ n ∈ bucketNames s, storageOf c n = i)
+    (hmk : ∀ b, op = .base (.mkb b) → storageOf c b = i) :
+    (bucketNames (xstep q s op).1).Nodup ∧ ∀ n ∈ bucketNames (xstep q s op).1, storageOf c n = i := by
+  simp only [bucketNames_eq] at h ⊢
+  rcases Replication.xstep_names q s op with he | ⟨b, hop, hb, he⟩ | ⟨b, _, hsub⟩
+  · rw [he]; exact h
+  · rw [he]
+    refine ⟨List.nodup_append.mpr ⟨h.1, by simp, ?_⟩, ?_⟩
+    · intro a ha x hx
+      simp only [List.mem_singleton] at hx
+      subst hx; intro hab; subst hab; exact hb ha
+    · intro n hn
+      rcases List.mem_append.mp hn with hn | hn
+      · exact h.2 n hn
+      · simp only [List.mem_singleton] at hn; subst hn; exact hmk _ hop
+  · exact ⟨h.1.sublist hsub, fun n hn => h.2 n (hsub.subset hn)⟩
+
+theorem getS_of_getElem? {ss : Stores} {i : Nat} {s : State} (h : ss[i]? = some s) : getS ss i = s := by
+  simp [getS, List.getD, h]
+
+theorem placed_set {c : Cfg} {ss : Stores} (hp : Placed c ss) (i : Nat) (s' : State)
+    (hs' : ∀ s, ss[i]? = some s → (bucketNames s').Nodup ∧ ∀ n ∈ bucketNames s', storageOf c n = i) :
+    Placed c (ss.set i s') := by
+  intro j t ht
+  by_cases hji : j = i
+  · subst hji
+    rw [List.getElem?_set] at ht
+    split at ht
+    · rename_i hlt
+      split at ht
+      · cases ht
+        have : ∃ s, ss[j]? = some s := ⟨ss[j], by simp⟩
+        obtain ⟨s, hs⟩ := this
+        exact hs' s hs
+      · cases ht
+    · exact hp j t ht
+  · rw [List.getElem?_set_ne (Ne.symm hji)] at ht
+    exact hp j t ht
+
+/-- **Placement is invariant**: whatever the call, buckets stay in the storage their name is
+routed to (a bucket is only ever created by a CreateBucket, which is routed by its own name). -/
+theorem placed_step (fx : Fixes) (q : Quirks) (c : Cfg) (ss : Stores) (op : XOp) (hp : Placed c ss) :
+    Placed c (rstep fx q c ss op).1 := by
+  unfold rstep
+  split
+  · next b hb =>
+    dsimp only
+    refine placed_set hp _ _ fun s hs => ?_
+    rw [getS_of_getElem? hs]
+    refine placed_after q op (hp _ s hs) fun b' hop => ?_
+    subst hop
+    simp only [route, routeBase, Route.bucket.injEq] at hb
+    rw [hb]
+  · next sb db hb =>
+    dsimp only
+    split
+    · refine placed_set hp _ _ fun s hs => ?_
+      rw [getS_of_getElem? hs]
+      refine placed_after q op (hp _ s hs) fun b' hop => ?_
+      subst hop
+      simp [route, routeBase] at hb
+    · unfold crossCopy
+      split
+      · split
+        · exact hp
+        · refine placed_set hp _ _ fun s hs => ?_
+          rw [getS_of_getElem? hs]
+          exact placed_after q (.base (.put _ _ _ _ false .none)) (hp _ s hs) (fun b' hop => by cases hop)
+      · split
+        · exact hp
+        · split
+          · exact hp
+          · refine placed_set hp _ _ fun s hs => ?_
+            rw [getS_of_getElem? hs]
+            exact placed_after q (.base (.uploadPart _ _ _ _ _)) (hp _ s hs) (fun b' hop => by cases hop)
+      · exact hp
+  · exact hp
+
+theorem placed_run (fx : Fixes) (q : Quirks) (c : Cfg) (ops : List XOp) (ss : Stores) (hp : Placed c ss) :
+    Placed c (rrun fx q c ss ops).1 := by
+  induction ops generalizing ss with
+  | nil => exact hp
+  | cons op ops ih => simp only [rrun]; exact ih _ (placed_step fx q c ss op hp)
+
+theorem placed_empty (c : Cfg) (n : Nat) : Placed c (List.replicate n {}) := by
+  intro i s hs
+  have : s = {} := by
+    have := List.mem_of_getElem? hs
+    simp only [List.mem_replicate] at this
+    exact this.2
+  subst this
+  exact ⟨by simp [bucketNames], by simp [bucketNames]⟩
+
+theorem placed_getS {c : Cfg} {ss : Stores} (hp : Placed c ss) (i : Nat) :
+    (bucketNames (getS ss i)).Nodup ∧ ∀ n ∈ bucketNames (getS ss i), storageOf c n = i := by
+  cases h : ss[i]? with
+  | some s => rw [getS_of_getElem? h]; exact hp i s h
+  | none => simp [getS, List.getD, h, bucketNames]
 
 end Pithos.Routing
